@@ -26,6 +26,19 @@ type builtList struct {
 	snaps []itemSnap      // non-time content at build time
 	style *astisub.Style
 	reg   *astisub.Region
+	meta  string // printed metadata at build time
+}
+
+// metaDiff reports a change of the list's metadata since it was built.
+func (b *builtList) metaDiff() string {
+	now := ""
+	if b.sub.Metadata != nil {
+		now = fmt.Sprintf("%+v|%+v", *b.sub.Metadata, b.sub.Metadata.WebVTTTimestampMap)
+	}
+	if now != b.meta {
+		return fmt.Sprintf("the list's metadata changed: %s -> %s", b.meta, now)
+	}
+	return ""
 }
 
 // itemSnap captures everything of an Item except its two boundaries.
@@ -96,6 +109,20 @@ func buildList(specs []cueSpec) *builtList {
 	b.reg = &astisub.Region{ID: "rg", InlineStyle: &astisub.StyleAttributes{WebVTTLines: 3}}
 	b.sub.Styles["st"] = b.style
 	b.sub.Regions["rg"] = b.reg
+	// the list's metadata is none of the operations' business: absent, or carrying a frame rate and a programme start
+	if len(specs) > 0 {
+		switch (len(specs) + int(specs[0].S/nsMs)) % 4 {
+		case 1:
+			b.sub.Metadata = &astisub.Metadata{Framerate: 25, Title: "t"}
+		case 2:
+			b.sub.Metadata = &astisub.Metadata{Framerate: 30, STLTimecodeStartOfProgramme: time.Hour}
+		case 3:
+			b.sub.Metadata = &astisub.Metadata{Framerate: 24, WebVTTTimestampMap: &astisub.WebVTTTimestampMap{Local: time.Second, MpegTS: 900000}}
+		}
+	}
+	if b.sub.Metadata != nil {
+		b.meta = fmt.Sprintf("%+v|%+v", *b.sub.Metadata, b.sub.Metadata.WebVTTTimestampMap)
+	}
 	for i, c := range specs {
 		it := &astisub.Item{
 			StartAt: time.Duration(c.S),
@@ -106,6 +133,11 @@ func buildList(specs []cueSpec) *builtList {
 		if i%3 != 2 {
 			// a speaker on the first line: part of the content every operation must carry along
 			it.Lines[0].VoiceName = fmt.Sprintf("voice%d", i%2)
+		}
+		if i%4 != 3 {
+			// an inline timestamp (WebVTT) on the last run of the last line: content like any other
+			ll := &it.Lines[len(it.Lines)-1]
+			ll.Items[len(ll.Items)-1].StartAt = time.Duration(c.E) - time.Duration(i%2)*time.Millisecond
 		}
 		if i%2 == 0 {
 			it.Style = b.style
